@@ -45,5 +45,20 @@ PROPS["C14"] = {
     "trusted_base": ["sort.Slice", "strings.HasPrefix"],
 }
 
+PROPS["C09"] = {
+    "suites": [{"name": "codec", "quick": 4000, "thorough": 60000, "thorough_seeds": 3}],
+    "rule": "codec: reachable entries built through the public API (Get/Cacheable/HitForPass with a recording store): hit, empty "
+            "hit-for-pass, hit-for-pass keeping an old response; header sets incl. multi-valued, empty, nil, non-ASCII, quoting; bodies "
+            "empty/1 byte/repetitive/random up to 600 B in any subset of raw/gzip/br; min-length up to 2^31, ttl up to 2^62; a separate "
+            "obs-text stream (invalid UTF-8 header values). Every record is decoded by the real FromBytes under recover/watchdog/"
+            "allocation meter and re-encoded; every strict prefix of ~n/20 records; n mutated records (bit flips, lying length words, "
+            "status word, garbage, spliced bad filter/JSON, trailing bytes, cut+extend). non-trivial = all but 'opaque' mutations (JSON/"
+            "regex validity of a shifted segment is library behaviour the model does not decide); distinct = distinct lines.",
+    "assumptions": ["json.Marshal/Unmarshal round trip on map[string][]string with valid-UTF-8 values (hypothesis RespWF.hdrRT; D12 is the excluded point)",
+                    "regexp.Compile(r.String()) succeeds for a compiled filter (RespWF.filterOK)",
+                    "field sizes < 2^32 (forced by the format; theorem size_wraps shows the excluded point)"],
+    "trusted_base": ["encoding/json, regexp, bytes.Buffer, encoding/binary"],
+}
+
 NOT_APPLICABLE = {}
 HOOK_COMMITS = ["ca43a57", "6332ff2"]
